@@ -64,6 +64,8 @@ func c17Groups(job byte, v int) []*targetgroup.Group {
 		return mk("t1", "d")
 	case 4:
 		return mk("t2")
+	case 5:
+		return mk("t1", "t2", "t3")
 	}
 	return nil
 }
